@@ -24,4 +24,16 @@ PROPS = {
                 "history/history and every triple (E,n,m) for lookup/history (kf_K1 lines, classified by the model's K1_class)",
         "assumptions": ["versions and epochs are u64 values; the tree-level bridge (a label cannot be shown both present and absent) is C05"],
     },
+    "C05": {
+        "coq_deps": ["TreeFacts", "HashingFacts", "TreeComplete"],
+        "steps": [
+            {"sub": "trees", "quick": [0], "thorough": [1]},
+        ],
+        "rule": "real Azks trees (both configurations; empty tree, the D1 shape, subsets of a small universe dealt into 1-3 epochs, random "
+                "256-bit labels sharing prefixes around byte boundaries): full tree dump + root hash, honest membership/non-membership "
+                "proofs for members and related non-members, and adversarial proofs (every ancestor as anchor, swapped/emptied/shortened "
+                "children, altered sibling values, directions, hashes, removed siblings, relabelled and truncated membership proofs); every "
+                "line recomputed bit for bit by the extracted model with Gallina BLAKE3; ground truth of each accepted proof checked",
+        "assumptions": ["hash values are 32 bytes (Rust types); theorems hold up to an explicit hash collision / zero-digest preimage event"],
+    },
 }
